@@ -59,28 +59,67 @@ def pre_text(sid):
 
 
 # ------------------------------------------------------------------------------------------ defining
+class Refused(Exception):
+    """raised by the hooks that refuse a class after its methods have been generated"""
+
+
+def _refusing_base(how, slots):
+    """a base class that lets the class statement through and refuses the class late, after attrs has generated
+    and compiled its methods: `subclass_hook` = an inherited __attrs_init_subclass__ raises (runs at the very end
+    of build_class); `init_subclass` = __init_subclass__ raises for the slotted clone attrs creates (the clone
+    already carries __attrs_attrs__; the class statement's own call passes); `meta` = a metaclass whose __new__
+    refuses a namespace that carries __attrs_attrs__ (the slotted clone again)."""
+    if how == "init_subclass" and slots:
+        class Base:
+            __slots__ = ()
+
+            def __init_subclass__(cls, **kw):
+                super().__init_subclass__(**kw)
+                if "__attrs_attrs__" in cls.__dict__:
+                    raise Refused("clone")
+        return Base
+    if how == "meta" and slots:
+        class Meta(type):
+            def __new__(mcs, name, bases, ns, **kw):
+                if "__attrs_attrs__" in ns:
+                    raise Refused("meta")
+                return super().__new__(mcs, name, bases, ns, **kw)
+        return Meta("Base", (), {"__slots__": ()})
+
+    class Base:
+        __slots__ = ()
+
+        @classmethod
+        def __attrs_init_subclass__(cls):
+            raise Refused("registry")
+    return Base
+
+
 def define(modname, d, cfg):
-    """define one class of the history in the synthetic module; returns the class"""
+    """define one class of the history in the synthetic module; returns the class (raises `Refused` when the
+    definition is one that is refused after code generation)"""
     body = BODIES[d["body"]]
     kw = dict(body.get("kw", {}))
     if cfg.get("slots"):
         kw["slots"] = True
     fields = body["fields"]()
     qual = d["qual"]
-    ns = {"__name__": modname, "__h__": {"fields": fields, "kw": kw, "attr": attr}}
+    ns = {"__name__": modname, "__h__": {"fields": fields, "kw": kw, "attr": attr, "base": object}}
+    if d.get("fails"):
+        ns["__h__"]["base"] = _refusing_base(d.get("failHow", "subclass_hook"), bool(kw.get("slots")))
     if qual.isidentifier() and cfg.get("api", "class") == "class":
-        lines = ["@__h__['attr'].s(**__h__['kw'])", f"class {qual}:"]
+        lines = ["@__h__['attr'].s(**__h__['kw'])", f"class {qual}(__h__['base']):"]
         lines += [f"    {n} = __h__['fields'][{n!r}]" for n in fields] or ["    pass"]
         src = "\n".join(lines) + "\n"
     else:
-        src = f"{'X'} = __h__['attr'].make_class({qual!r}, __h__['fields'], **__h__['kw'])\n"
+        src = f"{'X'} = __h__['attr'].make_class({qual!r}, __h__['fields'], bases=(__h__['base'],), **__h__['kw'])\n"
     exec(compile(src, f"<c17 {modname}>", "exec"), ns)
     return ns[qual] if qual in ns else ns["X"]
 
 
-def generated_functions(cls):
+def generated_functions(cls, with_getattr=False):
     out = []
-    for n in ("__init__", "__attrs_init__", "__repr__", "__eq__", "__hash__"):
+    for n in ("__init__", "__attrs_init__", "__repr__", "__eq__", "__hash__") + (("__getattr__",) if with_getattr else ()):
         fn = cls.__dict__.get(n)
         if isinstance(fn, types.FunctionType) and fn.__code__.co_filename.startswith("<attrs generated"):
             out.append(fn)
@@ -88,18 +127,25 @@ def generated_functions(cls):
 
 
 def _codes_in(top):
-    return {k.co_name: k for k in top.co_consts if isinstance(k, types.CodeType)}
+    """code objects of the functions a script defines, by name (nested ones too: `__getattr__` inside `wrapper`)"""
+    out = {}
+    for k in top.co_consts:
+        if isinstance(k, types.CodeType):
+            out.setdefault(k.co_name, k)
+            for n, kk in _codes_in(k).items():
+                out.setdefault(n, kk)
+    return out
 
 
-def text_holds(text, filename, cls):
-    """the text, compiled as a file of that name, yields exactly the code objects of the class's generated
+def text_holds(text, filename, cls_or_fns):
+    """the text, compiled as a file of that name, yields exactly the code objects of the given generated
     methods (bytecode, constants, names, line numbers)"""
     try:
         top = compile(text, filename, "exec")
     except SyntaxError:
         return False
     codes = _codes_in(top)
-    fns = generated_functions(cls)
+    fns = cls_or_fns if isinstance(cls_or_fns, list) else generated_functions(cls_or_fns)
     if not fns:
         return False
     for fn in fns:
@@ -110,43 +156,52 @@ def text_holds(text, filename, cls):
 
 
 def source_ok(cls):
-    """inspect.getsource of every generated method recompiles to the running code; the cache entry under the
-    code object's filename is a well-formed permanent entry holding that source"""
-    fns = generated_functions(cls)
+    """inspect.getsource of every generated method recompiles to the running code; the cache entry under each
+    code object's filename is a well-formed permanent entry holding that source (the main script and, on
+    slotted classes with cached properties, the script of the generated __getattr__)"""
+    fns = generated_functions(cls, with_getattr=True)
     if not fns:
         return False
-    filenames = {fn.__code__.co_filename for fn in fns}
-    if len(filenames) != 1:
-        return False
-    filename = filenames.pop()
-    ent = linecache.cache.get(filename)
-    if not (isinstance(ent, tuple) and len(ent) == 4):
-        return False
-    size, mtime, lines, fullname = ent
-    text = "".join(lines)
-    if mtime is not None or size != len(text) or fullname != filename:
-        return False
-    if not text_holds(text, filename, cls):
-        return False
-    if linecache.getlines(filename) != lines:
-        return False
+    by_file = {}
     for fn in fns:
-        co = fn.__code__
-        try:
-            got_lines, lno = inspect.getsourcelines(fn)
-        except (OSError, TypeError):
+        by_file.setdefault(fn.__code__.co_filename, []).append(fn)
+    if len({f for f in by_file if f.startswith("<attrs generated methods")}) > 1:
+        return False
+    for filename, ffns in by_file.items():
+        ent = linecache.cache.get(filename)
+        if not (isinstance(ent, tuple) and len(ent) == 4):
             return False
-        if lno != co.co_firstlineno or lines[lno - 1:lno - 1 + len(got_lines)] != got_lines:
+        size, mtime, lines, fullname = ent
+        text = "".join(lines)
+        if mtime is not None or size != len(text) or fullname != filename:
             return False
-        try:
-            k = _codes_in(compile(textwrap.dedent("".join(got_lines)), filename, "exec")).get(co.co_name)
-        except SyntaxError:
+        if not text_holds(text, filename, ffns):
             return False
-        if k is None or k.co_code != co.co_code or k.co_consts != co.co_consts or k.co_names != co.co_names \
-                or k.co_varnames != co.co_varnames:
+        if linecache.getlines(filename) != lines:
             return False
-    linecache.checkcache(filename)
-    return filename in linecache.cache
+        for fn in ffns:
+            co = fn.__code__
+            try:
+                got_lines, lno = inspect.getsourcelines(fn)
+            except (OSError, TypeError):
+                return False
+            if lno != co.co_firstlineno or lines[lno - 1:lno - 1 + len(got_lines)] != got_lines:
+                return False
+            if co.co_freevars:
+                # a closure (`__getattr__` inside `wrapper`, for no-argument super()) compiles differently on its
+                # own; the whole-file comparison above and the line slice just checked cover it
+                continue
+            try:
+                k = _codes_in(compile(textwrap.dedent("".join(got_lines)), filename, "exec")).get(co.co_name)
+            except SyntaxError:
+                return False
+            if k is None or k.co_code != co.co_code or k.co_consts != co.co_consts or k.co_names != co.co_names \
+                    or k.co_varnames != co.co_varnames:
+                return False
+        linecache.checkcache(filename)
+        if filename not in linecache.cache:
+            return False
+    return True
 
 
 def _filename_of(cls):
@@ -180,11 +235,11 @@ def reference_texts(modname, case, cfg):
         _purge_entries(modname)
         text = None
         try:
-            define(modname, d, cfg)
-            ent = linecache.cache.get(unique_filename(modname, d["qual"]))
-            text = "".join(ent[2]) if ent else None
+            define(modname, dict(d, fails=False), cfg)     # the script does not depend on the refusing base
         except Exception:  # noqa: BLE001
             pass
+        ent = linecache.cache.get(unique_filename(modname, d["qual"]))
+        text = "".join(ent[2]) if ent else None
         _purge_entries(modname)
         if not hashed:
             _REF[key] = text
@@ -232,6 +287,25 @@ def _purge(modname):
     sys.modules.pop(modname, None)
 
 
+REFUSED = object()     # stands for a definition that was refused after code generation, as the case asked
+
+
+def _files(classes):
+    return [(_filename_of(c) if isinstance(c, type) else "!") for c in classes]
+
+
+def _source_flags(case, classes, refs):
+    """per definition: a class that exists has faithful, intact source entries (checked at the END of the history,
+    after every later successful or refused definition); a definition the case wanted refused was refused"""
+    out = []
+    for d, c, r in zip(case["defs"], classes, refs):
+        if d.get("fails"):
+            out.append(c is REFUSED)
+        else:
+            out.append(isinstance(c, type) and source_ok(c) and _own_text_cached(c, r))
+    return out
+
+
 # ------------------------------------------------------------------------------------------ histories
 def observe_hist(case):
     modname = case["modul"]
@@ -245,15 +319,15 @@ def observe_hist(case):
             before = _snapshot(modname)
             try:
                 cls = define(modname, d, cfg)
+            except Refused:
+                cls = REFUSED
             except Exception:  # noqa: BLE001
                 cls = None
             classes.append(cls)
             after = _snapshot(modname)
             stable.append(all(k in after and after[k] == v for k, v in before.items()))
-        files = [(_filename_of(c) if c is not None else "!") for c in classes]
-        return {"files": files, "entries": _entries(modname, case, refs),
-                "sourceOk": [c is not None and source_ok(c) and _own_text_cached(c, r) for c, r in zip(classes, refs)],
-                "stable": stable, "realised": True}
+        return {"files": _files(classes), "entries": _entries(modname, case, refs),
+                "sourceOk": _source_flags(case, classes, refs), "stable": stable, "realised": True}
     finally:
         _purge(modname)
 
@@ -356,6 +430,8 @@ def observe_conc(case):
                 ctl.tids[threading.get_ident()] = i
                 try:
                     classes[i] = define(modname, case["defs"][i], cfg)
+                except Refused:
+                    classes[i] = REFUSED
                 except Exception:  # noqa: BLE001
                     classes[i] = None
                 finally:
@@ -374,10 +450,9 @@ def observe_conc(case):
             original.clear()
             original.update(dict.items(sc))
         after = _snapshot(modname)
-        files = [(_filename_of(c) if c is not None else "!") for c in classes]
         keep = all(k in after and after[k] == v for k, v in before.items())
-        return {"files": files, "entries": _entries(modname, case, refs),
-                "sourceOk": [c is not None and source_ok(c) and _own_text_cached(c, r) for c, r in zip(classes, refs)],
+        return {"files": _files(classes), "entries": _entries(modname, case, refs),
+                "sourceOk": _source_flags(case, classes, refs),
                 "stable": [keep] * n, "realised": not ctl.aborted}
     finally:
         linecache.cache = original
